@@ -15,13 +15,31 @@ TWIN = [False]
 ROOT = os.environ.get('VERIF_C15_ROOT', '')
 SRC = 'import mod\nvalue = mod.thing\nmod.thing\nundefined_name\n'
 KINDS = ('configure', 'assist', 'location', 'lint', 'eval', 'unknown', 'arity', 'eval_raises', 'unserialisable', 'bad_position',
-         'surrogate_result', 'cyclic_result', 'huge_int_result')
+         'surrogate_result', 'cyclic_result', 'huge_int_result', 'namedtuple_pos', 'subclass_result', 'lint_broken_star')
+FAILING = ('unknown', 'arity', 'eval_raises', 'unserialisable', 'bad_position', 'surrogate_result', 'cyclic_result',
+           'huge_int_result', 'lint_broken_star')
+SRC_BROKEN = 'from mod import *\nfrom broken import *\nthing\n'
+SRC_MOD = 'import mod\nmod.\n'
+MOD_V2 = 'thing = 1\nlater = 2\ndef func():\n    return later\n'
+OVER = {}       # path -> (mtime, text): edits made during a request history (the files on disk stay as materialised)
 
 
 def materialise(path):
     os.makedirs(path, exist_ok=True)
     with open(os.path.join(path, 'mod.py'), 'w') as f:
         f.write('thing = 1\ndef func():\n    return thing\n')
+    with open(os.path.join(path, 'broken.py'), 'w') as f:
+        f.write('def broken(:\n')
+
+
+import io
+import collections
+import supp.module as _sm
+_real_getmtime = _sm.getmtime
+_real_open = open
+_sm.getmtime = lambda p: OVER[p][0] if p in OVER else _real_getmtime(p)
+_sm.open = lambda p, *a: io.StringIO(OVER[p][1]) if p in OVER else _real_open(p, *a)
+Position = collections.namedtuple('Position', 'line column')
 
 
 class Idle(BaseException):
@@ -121,6 +139,15 @@ def remote(env, kind, fn):
             return 'ok', env.eval('x = []\nx.append(x)\nreturn x')
         if kind == 'huge_int_result':
             return 'ok', env.eval('return 2 ** 70')
+        if kind == 'namedtuple_pos':
+            return 'ok', env.assist(SRC, Position(3, 4), fn)
+        if kind == 'subclass_result':
+            return 'ok', env.eval('import collections, time\nclass L(list): pass\n'
+                                  'return [collections.namedtuple("P", "a b")(1, (2,)), time.gmtime(0), L([3]), {"k": L()}]')
+        if kind == 'lint_broken_star':
+            return 'ok', env.lint(SRC_BROKEN, fn)
+        if kind == 'assist_mod':
+            return 'ok', env.assist(SRC_MOD, (2, 4), fn)
     except Exception as e:
         return 'exc', str(e)
     raise ValueError(kind)
@@ -136,8 +163,24 @@ class Local(object):
         if kind == 'configure':
             self.project = Project([ROOT])
             return 'ok', None
-        if kind in ('assist', 'location', 'lint') and self.project is None:
+        if kind in ('assist', 'location', 'lint', 'namedtuple_pos', 'lint_broken_star', 'assist_mod') and self.project is None:
             return 'exc', None
+        if self.project is not None:
+            # the reference is the in-process API on a project that has no history: a new one per request
+            self.project = Project([ROOT])
+        if kind == 'namedtuple_pos':
+            return 'ok', assistant.assist(self.project, SRC, Position(3, 4), fn)
+        if kind == 'assist_mod':
+            return 'ok', assistant.assist(self.project, SRC_MOD, (2, 4), fn)
+        if kind == 'lint_broken_star':
+            try:
+                linter.lint(self.project, SRC_BROKEN, fn)
+            except SyntaxError:
+                return 'exc', None
+            return 'exc', '<the in-process lint does not fail>'
+        if kind == 'subclass_result':
+            import time
+            return 'ok', [[1, [2]], list(time.gmtime(0)), [3], {'k': []}]
         if kind == 'assist':
             with self.project.check_changes():
                 return 'ok', assistant.assist(self.project, SRC, (3, 4), fn)
@@ -157,12 +200,17 @@ class Local(object):
 
 
 def problems(script):
+    """script: indices into KINDS, or kind names ('edit' rewrites mod.py with a new modification time)"""
     fn = os.path.join(ROOT, 'main.py')
     env, cc = make_pair()
     ref = Local()
     bad = []
+    OVER.clear()
     for i, k in enumerate(script):
-        kind = KINDS[k]
+        kind = k if isinstance(k, str) else KINDS[k]
+        if kind == 'edit':
+            OVER[os.path.join(ROOT, 'mod.py')] = (_real_getmtime(os.path.join(ROOT, 'mod.py')) + 7, MOD_V2)
+            continue
         got = remote(env, kind, fn)
         want = ref.call(kind, fn)
         if want[0] == 'ok':
@@ -190,15 +238,40 @@ def _c(v, lo, hi):
     return lo
 
 
-def check(n: int, a: int, b: int, c: int) -> bool:
+WARM = ('assist_mod', 'assist', 'location', 'lint', 'namedtuple_pos')
+FINAL = ('assist_mod', 'assist', 'location', 'lint')
+
+
+def history_script(warm, fail, edit_first, final):
+    """configure; a request that analyses mod.py; a failing request; mod.py edited (before or after the failure);
+    a request that reads mod.py again"""
+    mid = ['edit', FAILING[fail]] if edit_first else [FAILING[fail], 'edit']
+    return ['configure', WARM[warm]] + mid + [FINAL[final]]
+
+
+def history(warm: int, fail: int, edit_first: int, final: int) -> bool:
     """
-    pre: 1 <= n <= 3
-    pre: 0 <= a <= 12 and 0 <= b <= 12 and 0 <= c <= 12
+    pre: 0 <= warm <= 4 and 0 <= fail <= 8 and 0 <= edit_first <= 1 and 0 <= final <= 3
     post: _
     """
     PATHS[0] += 1
     from crosshair.tracers import NoTracing
-    n, a, b, c = _c(n, 1, 3), _c(a, 0, 12), _c(b, 0, 12), _c(c, 0, 12)
+    warm, fail, edit_first, final = _c(warm, 0, 4), _c(fail, 0, 8), _c(edit_first, 0, 1), _c(final, 0, 3)
+    with NoTracing():
+        if TWIN[0]:
+            return False
+        return not problems(history_script(warm, fail, edit_first, final))
+
+
+def check(n: int, a: int, b: int, c: int) -> bool:
+    """
+    pre: 1 <= n <= 3
+    pre: 0 <= a <= 15 and 0 <= b <= 15 and 0 <= c <= 15
+    post: _
+    """
+    PATHS[0] += 1
+    from crosshair.tracers import NoTracing
+    n, a, b, c = _c(n, 1, 3), _c(a, 0, 15), _c(b, 0, 15), _c(c, 0, 15)
     with NoTracing():
         if TWIN[0]:
             return False
